@@ -1,2 +1,18 @@
 import WrglModel.Props.C06
-#print axioms Wrgl.C06_placeholder
+#print axioms Wrgl.C06_fact_maxCell
+#print axioms Wrgl.C06_fact_offsetWide
+#print axioms Wrgl.C06_fact_writeStringGuard
+#print axioms Wrgl.C06_fact_writeTimeGuard
+#print axioms Wrgl.C06_fact_hdrBitsExact
+#print axioms Wrgl.C06_strList_roundtrip
+#print axioms Wrgl.C06_strList_refuses_overlimit
+#print axioms Wrgl.C06_strList_injective
+#print axioms Wrgl.C06_block_roundtrip
+#print axioms Wrgl.C06_block_injective
+#print axioms Wrgl.C06_table_roundtrip
+#print axioms Wrgl.C06_commit_roundtrip
+#print axioms Wrgl.C06_commit_overlimit_rejected
+#print axioms Wrgl.C06_time_roundtrip
+#print axioms Wrgl.C06_time_out_of_range_refused
+#print axioms Wrgl.C06_packHeader_roundtrip
+#print axioms Wrgl.C06_save_key_is_hash
